@@ -380,6 +380,7 @@ def shrink(recipe, fails, budget=400):
 #   ("getslice", index, a)         a[index]  (ints / slices; index stored as ("i", k) | ("s", a, b, c))
 #   ("getitem", a, idx)            a[idx] with an integer-valued funsor idx
 #   ("independent", fn, rv, bv, dv) Independent(fn, rv, bv, dv)
+#   ("getsugar", a, items)         a[items]: `:` / Ellipsis / int / name / funsor items (getitem at any offset)
 # Kinds: "real", "bool", ("array", shape), or an int (Bint size).
 # ---------------------------------------------------------------------------------------------
 
@@ -395,6 +396,31 @@ def _index_of(ix):
         else:
             out.append(slice(it[1], it[2], it[3]))
     return tuple(out)
+
+
+def _sugar_index(items):
+    """x[...] index tuple: ("s",) = `:`, ("e",) = Ellipsis, ("i", k) = int, ("n", name) = str name,
+    ("r", recipe) = integer-valued funsor.  A funsor/name item at position p after q slices becomes
+    Binary(GetitemOp(offset=q), ·, ·) on the partially indexed result."""
+    out = []
+    for it in items:
+        if it[0] == "s":
+            out.append(slice(None))
+        elif it[0] == "e":
+            out.append(Ellipsis)
+        elif it[0] in ("i", "n"):
+            out.append(it[1])
+        else:
+            out.append(build(it[1]))
+    return tuple(out)
+
+
+def _py_sugar_index(items):
+    parts = []
+    for it in items:
+        parts.append("slice(None)" if it[0] == "s" else "Ellipsis" if it[0] == "e" else repr(it[1])
+                     if it[0] in ("i", "n") else python_of(it[1]))
+    return "(" + ", ".join(parts) + ",)"
 
 
 def _b_rvar(r):
@@ -416,6 +442,7 @@ _EXT_BUILD = {
     "getslice": lambda r: build(r[2])[_index_of(r[1])],
     "getitem": lambda r: build(r[1])[build(r[2])],
     "independent": lambda r: Independent(build(r[1]), r[2], r[3], r[4]),
+    "getsugar": lambda r: build(r[1])[_sugar_index(r[2])],
 }
 
 
@@ -440,6 +467,7 @@ _EXT_PY = {
     "getslice": lambda r: f"({python_of(r[2])})[{_py_index(r[1])}]",
     "getitem": lambda r: f"({python_of(r[1])})[{python_of(r[2])}]",
     "independent": lambda r: f"Independent({python_of(r[1])}, {r[2]!r}, {r[3]!r}, {r[4]!r})",
+    "getsugar": lambda r: f"({python_of(r[1])})[{_py_sugar_index(r[2])}]",
 }
 
 _EXT_CHILDREN = {
@@ -456,6 +484,7 @@ _EXT_CHILDREN = {
     "getslice": lambda r: [((2,), r[2], "other")],
     "getitem": lambda r: [((1,), r[1], "other"), ((2,), r[2], "int")],
     "independent": lambda r: [((1,), r[1], "other")],
+    "getsugar": lambda r: [((1,), r[1], "other")] + [((2, i, 1), it[1], "int") for i, it in enumerate(r[2]) if it[0] == "r"],
 }
 
 PY_HEADER += "from funsor.terms import Independent\n"
@@ -506,6 +535,32 @@ def _gen_slice_value(rng, ctx, size, free, keys):
     return None
 
 
+def _gen_getsugar(rng, ctx, depth, shape, opts):
+    """a[:, …, idx(, …)] producing event shape `shape`: index ONE output dim (any offset) of an array of rank
+    len(shape)+1 — sizes drawn so that neighbouring dims are often EQUAL (square shapes hide a wrongly permuted
+    axis) — by a number / context variable / fresh name / index tensor; written with `:` or Ellipsis."""
+    off = rng.randrange(0, len(shape) + 1)
+    near = [d for d in shape] or [2, 3]
+    n = rng.choice(near + near + [1, 2, 3])
+    src = tuple(shape[:off]) + (n,) + tuple(shape[off:])
+    a, fa = gen_ext(rng, ctx, depth - 1, ("array", src), opts)
+    r2 = rng.random()
+    if r2 < 0.25:
+        item, fi = ("n", "g"), {"g"}
+        if "g" in fa:
+            return None
+    else:
+        idx, fi = gen_leaf(rng, ctx, n)
+        item = ("r", idx)
+    if off > 0 and off == len(src) - 1 and rng.random() < 0.4:
+        items = (("e",), item)
+    else:
+        items = tuple(("s",) for _ in range(off)) + (item,)
+        if rng.random() < 0.2 and off < len(src) - 1:
+            items = items + (("e",),)
+    return ("getsugar", a, items), fa | fi
+
+
 def gen_ext(rng, ctx, depth, kind="real", opts=None):
     """Extended generator (see the table above).  Returns (recipe, free_names)."""
     opts = opts or {}
@@ -543,6 +598,10 @@ def gen_ext(rng, ctx, depth, kind="real", opts=None):
         if not shape:
             return rec(depth, "real")
         c = rng.random()
+        if depth > 0 and len(shape) <= 2 and rng.random() < 0.10:
+            g = _gen_getsugar(rng, ctx, depth, shape, opts)
+            if g is not None:
+                return g
         if depth <= 0 or c < 0.18:
             avail = [(n, sh) for n, sh in rvars.items() if tuple(sh) == shape]
             if avail and rng.random() < 0.4:
@@ -707,6 +766,10 @@ def gen_ext(rng, ctx, depth, kind="real", opts=None):
         sub = {k_: v for k_, v in ctx.items() if k_ != name}
         parts = [gen_ext(rng, sub, depth - 1, "real", opts) for _ in range(ctx[name])]
         return ("stack", name, tuple(p[0] for p in parts)), set().union({name}, *[p[1] for p in parts])
+    if c < 0.72:
+        g = _gen_getsugar(rng, ctx, depth, (), opts)
+        if g is not None:
+            return g
     if c < 0.78:
         # index an array-valued expression with an integer-valued funsor
         n = rng.choice([1, 2, 3])
